@@ -783,7 +783,13 @@ func (a *Act) doPanic(st *State, x *ssa.Panic) {
 		goal = or(ds...)
 		desc = "explicit panic only under panics_if"
 	}
+	n0 := len(vc.obls)
 	vc.oblige(a.oblName("nopanic-explicit"), "nopanic", a.props, a.pos(x.Pos()), st.guard, goal, desc+": "+panicText(x))
+	if top.con != nil && top.con.Opts["explicit-panics-under"] != "" && len(vc.obls) > n0 {
+		// "option explicit-panics-under C09 ...": the function is checked under several properties but its explicit panic
+		// statements are the business of these only (under the others the panic is assumed unreachable)
+		vc.obls[len(vc.obls)-1].OnlyProps = strings.Fields(strings.ReplaceAll(top.con.Opts["explicit-panics-under"], ",", " "))
+	}
 }
 
 func panicText(x *ssa.Panic) string {
